@@ -61,9 +61,12 @@ def h_independent(ctx):
         joint, end = _decode_at(ctx, ids, src, 0, n, p.get('compiled'))
     except Exception as e:
         return {'what': 'joint decode raised', 'exc': repr(e)[:300]}
-    joint.wire()
     rnd = NestedJsonRenderer()
-    joint_nested = rnd._render_template_data(joint)
+    try:
+        joint.wire()
+        joint_nested = rnd._render_template_data(joint)
+    except Exception as e:
+        return {'what': 'wiring / rendering of the joint decode raised', 'exc': repr(e)[:300]}
     pos = 0
     alone_values = []
     for s in range(n):
@@ -80,8 +83,12 @@ def h_independent(ctx):
         if dict(joint.bitmap_links_all_subsets[s]) != dict(alone.bitmap_links_all_subsets[0]):
             return {'what': 'joint vs alone: links', 'subset': s, 'joint': {str(k): v for k, v in joint.bitmap_links_all_subsets[s].items()},
                     'alone': {str(k): v for k, v in alone.bitmap_links_all_subsets[0].items()}}
-        alone.wire()
-        if not same_tree(joint_nested[s], rnd._render_template_data(alone)[0]):
+        try:
+            alone.wire()
+            alone_nested = rnd._render_template_data(alone)[0]
+        except Exception as e:
+            return {'what': 'wiring / rendering of a subset decoded alone raised', 'subset': s, 'exc': repr(e)[:300]}
+        if not same_tree(joint_nested[s], alone_nested):
             return {'what': 'joint vs alone: hierarchical structure', 'subset': s}
         alone_values.append(list(alone.decoded_values_all_subsets[0]))
         pos = pos2
